@@ -237,6 +237,16 @@ int main(void)
 	init_opt(&ropts[0], "i", CFGT_INT, CFGF_DEFINIT);
 	alloc_values(&ropts[0], 1);
 	ropts[0].values[0]->number = 3;
+#ifdef SIMPLE_I
+	{
+		/* CFG_SIMPLE_INT: the value lives in the application's variable, the option itself holds no value cell */
+		static long simple_i = 3;
+
+		ropts[0].simple_value.number = &simple_i;
+		ropts[0].nvalues = 0;
+		ropts[0].values = NULL;
+	}
+#endif
 	init_opt(&ropts[1], "s", CFGT_STR, CFGF_DEFINIT);
 	alloc_values(&ropts[1], 1);
 	ropts[1].values[0]->string = NULL; /* unset string */
